@@ -430,10 +430,6 @@ pub open spec fn dim_of(s: Seq<u8>) -> Option<Dimensions> {
 //@@ sig
     ensures
         dim_of(dimension@) is Some ==> r == Ok::<Dimensions, XlsxError>(dim_of(dimension@)->Some_0),
-        // TRUSTED: get_dimension computes `parts[1].0 - parts[0].0` and `parts[1].1 - parts[0].1` on the two corners before it returns Ok:
-        // under the semantics verified here (arithmetic overflow is a failure OF THAT FUNCTION, its own C06 obligation -- Kani harness
-        // get_dimension_reversed_total of kani/xlsxdim) a normal return means the corners are ordered
-        r matches Ok(d) ==> d.start.0 <= d.end.0 && d.start.1 <= d.end.1,
 //@@ end
 
 proof fn lemma_cell_of(s: Seq<u8>, nl: int)
@@ -675,6 +671,10 @@ pub open spec fn master_stored_under_its_shared_index(after: Groups, before: Gro
 }
 /// C06 "memory in proportion to the input": `n` entries are allocated while reading a part of `input_events` XML events
 pub open spec fn alloc_in_proportion(n: int, input_events: int) -> bool { n <= input_events }
+/// number of cells of the rectangle d
+pub open spec fn rect_cells(d: Dimensions) -> int {
+    if d.start.0 <= d.end.0 && d.start.1 <= d.end.1 { (d.end.0 - d.start.0 + 1) * (d.end.1 - d.start.1 + 1) } else { 0 }
+}
 /// group table after the master of group k has been met
 pub open spec fn groups_put(g: Groups, k: int, v: GroupV) -> Groups {
     if k < g.len() { g.update(k, Some(v)) } else { (g + Seq::new((k - g.len()) as nat, |j: int| None::<GroupV>)).push(Some(v)) }
@@ -1008,35 +1008,47 @@ if (match \g<1> { Ok(Some(__t)) => __t == b"shared", _ => false }) {
                                                     assert(attr_scan(ce.attrs, n_ref()) matches AttrLookup::Found(rr) && dim_of(rr) == Some(reference));
                                                 }
                                             }
+                                            // corners in order (ST_Ref); for reversed corners nothing is claimed about the map (the loops are empty, but vstd's
+                                            // model of `a..=b` does not say so for a > b)
+                                            let ghost ord = reference.start.0 <= reference.end.0 && reference.start.1 <= reference.end.1;
                                             //# C06.offset_map_alloc_bound
                                             // allocation: the offset map gets one entry per cell of the DECLARED range, whatever the size of the sheet part
-                                            assert(alloc_in_proportion((reference.end.0 - reference.start.0 + 1) * (reference.end.1 - reference.start.1 + 1), ev.len() as int));
+                                            assert(alloc_in_proportion(rect_cells(reference), ev.len() as int));
 //@@ loop 2 it2
                                                 invariant
-                                                    reference.start.0 <= reference.end.0, reference.start.1 <= reference.end.1,
                                                     vstd::std_specs::hash::obeys_key_model::<(u32, u32)>(),
+                                                    ord == (reference.start.0 <= reference.end.0 && reference.start.1 <= reference.end.1),
+                                                    // (vstd's model of `a..=b`: a + k for k = 0 ..= b - a when a <= b)
+                                                    ord ==> it2.seq().len() == reference.end.0 - reference.start.0 + 1,
+                                                    ord ==> forall|k: int| 0 <= k < it2.seq().len() ==> it2.seq()[k] == reference.start.0 + k,
+                                                    forall|m: (u32, u32)| #[trigger] offset_map@.contains_key(m) ==> offset_small(offset_map@[m]),
                                                     // rows done so far are complete, nothing else is in the map
-                                                    forall|m: (u32, u32)| #[trigger] offset_map@.contains_key(m) ==>
+                                                    ord ==> forall|m: (u32, u32)| #[trigger] offset_map@.contains_key(m) ==>
                                                         in_rect(reference, m) && m.0 < reference.start.0 + it2.index@ && offset_map@[m] == off_of(pos, m),
-                                                    forall|m: (u32, u32)| in_rect(reference, m) && m.0 < reference.start.0 + it2.index@ ==> #[trigger] offset_map@.contains_key(m),
+                                                    ord ==> forall|m: (u32, u32)| in_rect(reference, m) && m.0 < reference.start.0 + it2.index@ ==> #[trigger] offset_map@.contains_key(m),
 //@@ loop 3 it3
                                                     invariant
-                                                        reference.start.0 <= reference.end.0, reference.start.1 <= reference.end.1,
-                                                        reference.start.0 <= row <= reference.end.0, row == reference.start.0 + it2.index@,
                                                         vstd::std_specs::hash::obeys_key_model::<(u32, u32)>(),
-                                                        forall|m: (u32, u32)| #[trigger] offset_map@.contains_key(m) ==>
+                                                        ord == (reference.start.0 <= reference.end.0 && reference.start.1 <= reference.end.1),
+                                                        ord ==> reference.start.0 <= row <= reference.end.0 && row == reference.start.0 + it2.index@,
+                                                        ord ==> it3.seq().len() == reference.end.1 - reference.start.1 + 1,
+                                                        ord ==> forall|k: int| 0 <= k < it3.seq().len() ==> it3.seq()[k] == reference.start.1 + k,
+                                                        forall|m: (u32, u32)| #[trigger] offset_map@.contains_key(m) ==> offset_small(offset_map@[m]),
+                                                        ord ==> forall|m: (u32, u32)| #[trigger] offset_map@.contains_key(m) ==>
                                                             in_rect(reference, m) && (m.0 < row || (m.0 == row && m.1 < reference.start.1 + it3.index@)) && offset_map@[m] == off_of(pos, m),
-                                                        forall|m: (u32, u32)| in_rect(reference, m) && (m.0 < row || (m.0 == row && m.1 < reference.start.1 + it3.index@)) ==> #[trigger] offset_map@.contains_key(m),
+                                                        ord ==> forall|m: (u32, u32)| in_rect(reference, m) && (m.0 < row || (m.0 == row && m.1 < reference.start.1 + it3.index@)) ==> #[trigger] offset_map@.contains_key(m),
 //@@ before /if let Some\(f\) = formula\.borrow\(\)/#1of2
                                             //# C15.offset_map_only_rectangle
-                                            assert(offset_map_only_rectangle(offset_map@, reference));
+                                            assert(ord ==> offset_map_only_rectangle(offset_map@, reference));
                                             //# C15.offset_map_covers_rectangle
-                                            assert(offset_map_covers_rectangle(offset_map@, reference, pos));
+                                            assert(ord ==> offset_map_covers_rectangle(offset_map@, reference, pos));
                                             let ghost gv = GroupV { text: tx.text, map: offset_map@ };
                                             let ghost len1 = self.formulas.len() as int;
                                             proof {
-                                                assert(is_rect_map(offset_map@, reference, pos));
-                                                lemma_rect_map_unique(offset_map@, reference, pos);
+                                                if ord {
+                                                    assert(is_rect_map(offset_map@, reference, pos));
+                                                    lemma_rect_map_unique(offset_map@, reference, pos);
+                                                }
                                             }
 //@@ loop 4
                                                     invariant
